@@ -33,7 +33,9 @@ MANIFEST_ENTRY = {
     'technique': 'Hypothesis over noise parameters with full 4^n enumeration '
                  'on n <= 6 and random errors elsewhere; oracle = product of '
                  'per-qubit channel probabilities; metamorphic likelihood '
-                 'ratio for single-qubit moves',
+                 'ratio for single-qubit moves and the acceptance probability '
+                 'observed inside the Metropolis step; default-rng draws of '
+                 'generate() checked for independence and distribution',
     'level_text': 'error_probability is compared with the closed-form '
                   'product for every error of small codes (normalisation '
                   'follows exactly) and for random errors on larger ones, in '
